@@ -26,6 +26,7 @@ EXPLANATION = (
     "get_evaluatable(semiring=...) returns the compiling class only when semiring.is_dsp() is True, otherwise the plain NNF, on which a product over children that share a "
     "choice counts it once per occurrence."
     " Added after seed round 6: X3 models the solver's answer as a typestate (signed model vs true variables) and reads else-branches as the negated literal; X4 folds the guard of every soft clause over (is_one, is_zero): emitted for every weight but the semiring one."
+    " Added after seed round 9: X6 in FormulaEvaluatorNSP.compute_weight the union of the children's fact sets is complete before it is read (no read of a |= accumulator inside the loop that builds it; positive example matched on every run)."
 )
 TECHNIQUE = "static analysis: decision tables of the semiring operations over orderings, AST patterns for literal/weight sign pairing, wiring rules"
 LEVEL_TEXT = EXPLANATION
@@ -495,6 +496,54 @@ def rule_x5(repo, col):
                    "returned assignment" % (cname, e.value, meth.qualname, sorted(plain)), construct="class %s: is_dsp" % cname, function=cname)
 
 
+def partial_union_reads(fnode):
+    """(loop, name, read) for every read of a union accumulator inside the loop that still builds it: `X |= part` in the body of a for loop and another use of X in that same body
+    sees the union of the parts visited SO FAR, not of all parts"""
+    out = []
+    for lp in ast.walk(fnode):
+        if not isinstance(lp, ast.For):
+            continue
+        accs = [st for b in lp.body for st in ast.walk(b) if isinstance(st, ast.AugAssign) and isinstance(st.op, ast.BitOr) and isinstance(st.target, ast.Name)]
+        for acc in accs:
+            own = {id(x) for x in ast.walk(acc)}
+            for b in lp.body:
+                for x in ast.walk(b):
+                    if isinstance(x, ast.Name) and x.id == acc.target.id and isinstance(x.ctx, ast.Load) and id(x) not in own:
+                        out.append((lp, acc.target.id, x))
+    return out
+
+
+_PARTIAL_SELFTEST = """
+def f(parts):
+    total = set()
+    for w, used in parts:
+        total |= used
+        missing = total - used
+    return missing
+"""
+
+
+def rule_x6(repo, col):
+    """FormulaEvaluatorNSP.compute_weight (the evaluator used for max-product on a formula that is not smooth): a disjunct is completed with max(p, 1-p) of every fact that occurs
+    in ANOTHER disjunct - the set of all facts must be complete before any disjunct is completed"""
+    if len(partial_union_reads(ast.parse(_PARTIAL_SELFTEST))) != 1:
+        raise AnalysisError("partial-union rule does not fire on its positive example")
+    f = repo.func("problog.evaluator", "FormulaEvaluatorNSP.compute_weight")
+    m = f.module
+    n_acc = len([st for st in ast.walk(f.node) if isinstance(st, ast.AugAssign) and isinstance(st.op, ast.BitOr)])
+    if n_acc < 1:
+        raise AnalysisError("FormulaEvaluatorNSP.compute_weight: no union of the children's fact sets found")
+    bad = partial_union_reads(f.node)
+    for lp, name, x in bad:
+        col.fail("X6", m, x, "FormulaEvaluatorNSP.compute_weight reads %s inside the loop that is still building it: a disjunct is then completed only with the facts of the disjuncts BEFORE "
+                 "it, while the node still reports all facts as used - early disjuncts are over-weighted and the reported world is not a most probable one "
+                 "(0.3::d. 0.4::a. 0.4::b. q :- d. q :- a, b. evidence(q). gives {d} with 0.3; the true MPE is {a, b, \\+d} with 0.112)" % name,
+                 construct="compute_weight: %s read while it is being accumulated" % name, function="FormulaEvaluatorNSP.compute_weight")
+    if not bad:
+        col.ok("X6", m, f.node, "the union of the children's fact sets (%d accumulation%s) is complete before it is read" % (n_acc, "" if n_acc == 1 else "s"),
+               construct="compute_weight: union complete before use", function="FormulaEvaluatorNSP.compute_weight")
+
+
 def run(repo, col):
     col.rule("X5", "max-product needs a decomposable circuit: the MPE semirings must select a compiling evaluatable")
     col.rule("X1", "SemiringMPEState / SemiringMinPEState operation tables")
@@ -506,3 +555,5 @@ def run(repo, col):
     rule_x3(repo, col)
     rule_x4(repo, col)
     rule_x5(repo, col)
+    col.rule("X6", "non-smooth max-product: the set of all facts is complete before a disjunct is completed")
+    rule_x6(repo, col)
